@@ -525,6 +525,36 @@ func decidedSucc(b, pred *ssa.BasicBlock) (*ssa.BasicBlock, bool) {
 			}
 		}
 	}
+	// a comparison of a phi of this block with a constant (`code := <status of the inlined
+	// helper>; if code != 0 {`): the incoming edge gives the phi's value
+	if bo, ok := cond.(*ssa.BinOp); ok {
+		var ph *ssa.Phi
+		var other *ssa.Const
+		swapped := false
+		if p, isP := bo.X.(*ssa.Phi); isP {
+			ph = p
+			other, _ = bo.Y.(*ssa.Const)
+		} else if p, isP := bo.Y.(*ssa.Phi); isP {
+			ph = p
+			other, _ = bo.X.(*ssa.Const)
+			swapped = true
+		}
+		if ph != nil && other != nil && ph.Block() == b && other.Value != nil {
+			if ec, isC := ph.Edges[idx].(*ssa.Const); isC && ec.Value != nil && ec.Value.Kind() == other.Value.Kind() && ec.Value.Kind() != constant.Unknown {
+				switch bo.Op {
+				case token.EQL, token.NEQ, token.LSS, token.LEQ, token.GTR, token.GEQ:
+					l, r := ec.Value, other.Value
+					if swapped {
+						l, r = r, l
+					}
+					if (ec.Value.Kind() == constant.Bool || ec.Value.Kind() == constant.String) && bo.Op != token.EQL && bo.Op != token.NEQ && ec.Value.Kind() == constant.Bool {
+						return nil, false
+					}
+					return pick(constant.Compare(l, bo.Op, r))
+				}
+			}
+		}
+	}
 	return nil, false
 }
 
